@@ -9,16 +9,27 @@ import (
 	"go.mongodb.org/mongo-driver/bson"
 )
 
+// constFilter returns a filter that matches every document (true) or none (false)
+func constFilter(v bool) bson.M {
+	if v {
+		return bson.M{}
+	}
+	return bson.M{"_id": bson.M{"$in": []interface{}{}}}
+}
+
+// convertHasExpression translates a has expression into a $match filter; with not set, it
+// translates the negation of the expression.
 func convertHasExpression(stmt *gripql.HasExpression, not bool) bson.M {
-	output := bson.M{}
-	switch stmt.Expression.(type) {
+	// an expression that cannot be evaluated is false for every element
+	output := constFilter(not)
+	switch stmt.GetExpression().(type) {
 	case *gripql.HasExpression_Condition:
 		cond := stmt.GetCondition()
 		switch cond.Condition {
 		case gripql.Condition_INSIDE:
 			val := cond.Value.AsInterface()
 			lims, ok := val.([]interface{})
-			if !ok {
+			if !ok || len(lims) != 2 {
 				log.Error("unable to cast values from INSIDE statement")
 			} else {
 				output = convertHasExpression(gripql.And(gripql.Gt(cond.Key, lims[0]), gripql.Lt(cond.Key, lims[1])), not)
@@ -27,7 +38,7 @@ func convertHasExpression(stmt *gripql.HasExpression, not bool) bson.M {
 		case gripql.Condition_OUTSIDE:
 			val := cond.Value.AsInterface()
 			lims, ok := val.([]interface{})
-			if !ok {
+			if !ok || len(lims) != 2 {
 				log.Error("unable to cast values from OUTSIDE statement")
 			} else {
 				output = convertHasExpression(gripql.Or(gripql.Lt(cond.Key, lims[0]), gripql.Gt(cond.Key, lims[1])), not)
@@ -36,7 +47,7 @@ func convertHasExpression(stmt *gripql.HasExpression, not bool) bson.M {
 		case gripql.Condition_BETWEEN:
 			val := cond.Value.AsInterface()
 			lims, ok := val.([]interface{})
-			if !ok {
+			if !ok || len(lims) != 2 {
 				log.Error("unable to cast values from BETWEEN statement")
 			} else {
 				output = convertHasExpression(gripql.And(gripql.Gte(cond.Key, lims[0]), gripql.Lt(cond.Key, lims[1])), not)
@@ -56,6 +67,9 @@ func convertHasExpression(stmt *gripql.HasExpression, not bool) bson.M {
 		if not {
 			output = bson.M{"$or": andRes}
 		}
+		if len(andRes) == 0 {
+			output = constFilter(!not)
+		}
 
 	case *gripql.HasExpression_Or:
 		or := stmt.GetOr()
@@ -67,9 +81,12 @@ func convertHasExpression(stmt *gripql.HasExpression, not bool) bson.M {
 		if not {
 			output = bson.M{"$and": orRes}
 		}
+		if len(orRes) == 0 {
+			output = constFilter(not)
+		}
 
 	case *gripql.HasExpression_Not:
-		notRes := convertHasExpression(stmt.GetNot(), true)
+		notRes := convertHasExpression(stmt.GetNot(), !not)
 		output = notRes
 
 	default:
@@ -108,13 +125,20 @@ func convertCondition(cond *gripql.HasCondition, not bool) bson.M {
 	case gripql.Condition_LTE:
 		expr = bson.M{"$lte": val}
 	case gripql.Condition_WITHIN:
+		if _, ok := val.([]interface{}); !ok {
+			return constFilter(not)
+		}
 		expr = bson.M{"$in": val}
 	case gripql.Condition_WITHOUT:
+		if _, ok := val.([]interface{}); !ok {
+			return constFilter(!not)
+		}
 		expr = bson.M{"$not": bson.M{"$in": val}}
 	case gripql.Condition_CONTAINS:
-		expr = bson.M{"$in": []interface{}{val}}
+		expr = bson.M{"$elemMatch": bson.M{"$eq": val}}
 	default:
 		log.Error("unknown where condition type")
+		return constFilter(not)
 	}
 	if not {
 		return bson.M{key: bson.M{"$not": expr}}
